@@ -431,6 +431,7 @@ pub fn run_once(case: &CaseSpec, prefix: &[usize]) -> RunResult {
     behaviors: (0..case.nbeh).map(|_| BehaviorSubject::new(Val::I(9))).collect(),
     hotc: (0..case.nhotc).map(|_| Default::default()).collect(),
     groups: Default::default(),
+    shares: Default::default(),
   };
   let world = Arc::new(World {
     env,
